@@ -11,7 +11,7 @@ TRANSFORMS = [
     "comments (line, block, doc) dropped",
     "outer attributes on the extracted item dropped (#[inline], #[inline(always)], #[allow(..)], #[cfg(..)] after it was evaluated)",
     "items/blocks/statements under a #[cfg(..)] that evaluates to false for the stated configuration dropped; a block under a true #[cfg] keeps its braces",
-    "visibility (pub / pub(crate)) normalised to `pub`",
+    "visibility (pub / pub(crate) / private) normalised to `pub` (no qualifier inside trait impls)",
     "`const fn` -> `fn` (Verus const fn support is partial)",
     "return type `-> T` rewritten to `-> (name: T)` when the contract names the result",
     "function renamed only when the template asks for it with `as <name>` (used to place two cfg arms side by side)",
@@ -422,7 +422,7 @@ class Woven:
         self.name = name
 
 
-def normalise_fn(fn_src, cfg, rename=None, ret_name=None, debug_assert_verus=True):
+def normalise_fn(fn_src, cfg, rename=None, ret_name=None, debug_assert_verus=True, vis="pub "):
     """Apply the TRANSFORMS to a raw fn slice; returns (text, undo) where undo
     is info the erasure check needs."""
     s = resolve_cfg(fn_src, cfg)
@@ -432,9 +432,9 @@ def normalise_fn(fn_src, cfg, rename=None, ret_name=None, debug_assert_verus=Tru
     orig_name = toks[fi + 1].text
     # header = tokens before fn
     head_end = toks[fi].start
-    s = "pub " + s[head_end:]
+    s = vis + s[head_end:]
     if rename:
-        s = re.sub(r'^pub fn ' + re.escape(orig_name) + r'\b', 'pub fn ' + rename, s, count=1)
+        s = re.sub(r'^' + re.escape(vis) + r'fn ' + re.escape(orig_name) + r'\b', vis + 'fn ' + rename, s, count=1)
     if ret_name:
         toks = tokenize(s)
         # find `->` at paren depth 0 before body `{`
@@ -472,16 +472,16 @@ def erase_tokens(fn_text):
     return [t.text for t in tokenize('\n'.join(lines))]
 
 
-def source_tokens(fn_src, cfg, rename=None, ret_name=None, debug_assert_verus=True):
+def source_tokens(fn_src, cfg, rename=None, ret_name=None, debug_assert_verus=True, vis="pub "):
     """Tokens the erasure check expects: the raw slice with the documented
     transformations applied mechanically *on tokens* (independent code path
     from normalise_fn's text surgery)."""
     s = resolve_cfg(fn_src, cfg)
     toks = [t.text for t in tokenize(s)]
     fi = toks.index('fn')
-    toks = ['pub'] + toks[fi:]
+    toks = (['pub'] if vis.strip() else []) + toks[fi:]
     if rename:
-        toks[2] = rename
+        toks[2 if vis.strip() else 1] = rename
     if ret_name:
         depth = 0
         arrow = None
